@@ -68,8 +68,9 @@ type SC struct {
 	SubOps    []*SubOp
 	Teardowns []*TeardownRet
 	Stores    []*Store
-	Inlined   []*ast.FuncDecl // helper declarations inlined into this SC
-	Unknown   []string        // constructs the walker did not understand (fail-closed input for rules)
+	FnPlaces  map[ast.Node][]FnPlace // function node -> contexts in which its body was walked
+	Inlined   []*ast.FuncDecl        // helper declarations inlined into this SC
+	Unknown   []string               // constructs the walker did not understand (fail-closed input for rules)
 	Frames    int
 
 	UserParams map[*types.Var]bool // function/observable-typed parameters of enclosing API functions
